@@ -36,6 +36,19 @@ func sameState(a, b *reqRec) bool {
 		bytes.Equal(a.code, b.code) && a.caSnap.equal(b.caSnap)
 }
 
+// sameStateButLangFlag: as sameState, with the LANG flag (bit 7, "a language selection is pending") left out of the comparison.
+// A new engine's preparation applies the configured language to the state object it is handed and raises that flag, whatever
+// the request's input turns out to be; the next run consumes it and finds the language the session already has.
+func sameStateButLangFlag(a, b *reqRec) bool {
+	fa, fb := append([]byte{}, a.flags...), append([]byte{}, b.flags...)
+	if len(fa) > 0 && len(fb) > 0 {
+		fa[0] &^= 0x80
+		fb[0] &^= 0x80
+	}
+	return strings.Join(a.path, "/") == strings.Join(b.path, "/") && a.idx == b.idx && bytes.Equal(fa, fb) &&
+		bytes.Equal(a.code, b.code) && a.caSnap.equal(b.caSnap)
+}
+
 // firstMatch computes, from pending bytecode that starts with INCMP lines, which INCMP decides the move.
 // ended: the code ends with the INCMP block; nmatch: how many INCMP lines of the block match the input.
 func firstMatch(code []byte, input []byte) (target string, matched bool, ok bool, ended bool, nmatch int) {
@@ -434,9 +447,10 @@ func engineOracles(c *Ctx, ec *eCase, recs []reqRec) {
 			// (not checked before the engine's first successful request: `prepare` then applies the configured
 			// language; nor right after a failed Flush, whose pending unwind any next Exec performs)
 			// (mode ws: a new engine prepares the state object the client kept; after a session end that object is a new session's
-			// state again and the preparation applies the configured language to it, whatever the input - same exemption as above)
+			// state again and the preparation applies the configured language to it, whatever the input - same exemption as above;
+			// with a configured language every new engine's preparation raises the LANG flag on the kept state object, also mid-session)
 			if prev != nil && prev.state != "nostate" && okSeen && prev.f != "err" && !sameState(prev, r) && prev.x != "panic" &&
-				!(ec.mode == "ws" && len(prev.path) == 0) {
+				!(ec.mode == "ws" && (len(prev.path) == 0 || (ec.lang != "" && sameStateButLangFlag(prev, r)))) {
 				c.Fail("C17", "refused-changed-state", fmt.Sprintf("%s: state changed: %s -> %s", where, trunc(prev.state, 200), trunc(r.state, 200)))
 			}
 		}
